@@ -1,7 +1,7 @@
 (* the stage chains regenerated from the source (Gen/T7chain.v, Gen/T7pipe.v) are the faithful variant of Model/FitChain.v:
    same stages in the same order in fit and in transform, every fit_transform is fit followed by transform of the same data *)
 From Coq Require Import String List Bool.
-From XV Require Import Gen.T7chain Gen.T7pipe.
+From XV Require Import Gen.T7chain Gen.T7pipe Gen.T5cpcca.
 Import ListNotations.
 Open Scope string_scope.
 
@@ -37,3 +37,10 @@ Lemma single_chain :
   single_fit_calls = [("data2D", "preprocessor", "fit_transform", "X"); ("-", "_fit_algorithm", "call", "data2D")] /\
   single_transform_calls = [("data2D", "preprocessor", "transform", "data"); ("data2D", "_transform_algorithm", "call", "data2D")].
 Proof. split; reflexivity. Qed.
+
+Lemma cpcca_field_tables :
+  cpcca_transform_table = [("X", "components1", "norm1"); ("Y", "components2", "norm2")] /\
+  cpcca_inverse_table = [("X", "components1"); ("Y", "components2")] /\
+  cpcca_accessor_table = [("components1", "components1", "norm1", "mul-if-not-normalized"); ("components2", "components2", "norm2", "mul-if-not-normalized");
+                          ("scores1", "scores1", "norm1", "div-if-normalized"); ("scores2", "scores2", "norm2", "div-if-normalized")].
+Proof. repeat split; reflexivity. Qed.
